@@ -96,8 +96,10 @@ FB == "fb-M1"                               \* the fall-back tag sha256-<M1>
 RName(S) == IF S = {"A1"} THEN "R1" ELSE IF S = {"A2"} THEN "R2"
             ELSE IF S = {"A1", "A2"} THEN "R12" ELSE "R0"
 Referrers(n) == {a \in Mans : Cat[a].subj = n}
+Nodes == Mans \cup UNION {Kids(n) : n \in Mans}
 Tmp(c, b) == "tmp-" \o c \o "-" \o b        \* BlobPut temp file of copy c for blob b
-IsTmp(x) == \E i \in 1..(Len(x) - 3) : SubSeq(x, i, i + 3) = "tmp-"
+TmpNames == {Tmp(c, b) : c \in Copies, b \in Nodes} \cup {"tmp-bad", "tmp-plant", "tmp-plant-man"}
+IsTmp(x) == x \in TmpNames
 Keys == {conf.cp[c].key : c \in Copies} \cup conf.ckeys \cup {conf.okey}
 
 -----------------------------------------------------------------------------
@@ -158,8 +160,7 @@ ManPut(f, i, n, t, child) ==
 CP(c) == conf.cp[c]
 InProg(c) == cst[c] \in {"run", "fail"}          \* between GCLock and GCUnlock
 Sel(c, n) == Cat[n].sub \ CP(c).skip            \* children kept by ImageWithPlatforms
-PreFiles == Closure(Mans \cup {"C1", "C2", "C3", "C4", "E1", "L1", "L2", "L3", "L4", "B1", "B2"},
-                    {p[1] : p \in conf.pre}, {})
+PreFiles == Closure(Nodes, {p[1] : p \in conf.pre}, {})
 
 Init ==
   /\ conf \in Confs
@@ -177,7 +178,7 @@ Init ==
 
 Done == (\A c \in Copies : cst[c] \in {"ok", "err"}) /\ closes = MaxCloses
 
----- copies ----
+\* ---- copies ----
 CopyBegin(c) ==
   /\ cst[c] = "idle"
   /\ cst' = [cst EXCEPT ![c] = "run"]
@@ -287,7 +288,7 @@ CopyFailDrain(c, b) ==
      ELSE UNCHANGED <<files, modRefs>>
   /\ UNCHANGED <<conf, idx, cst, act, got, fin, rl, closes, ops>>
 
----- the collector ----
+\* ---- the collector ----
 GCRuns(k) == conf.gc /\ modRefs[k].ex /\ modRefs[k].mod /\ modRefs[k].locks = 0
 Close(k) ==
   /\ closes < MaxCloses
@@ -298,10 +299,10 @@ Close(k) ==
      ELSE UNCHANGED <<files, modRefs>>
   /\ UNCHANGED <<conf, idx, cst, act, got, tmpf, fin, rl, ops>>
 
----- other calls through the same client (no GC lock) ----
+\* ---- other calls through the same client (no GC lock) ----
 Op == ops < MaxOps /\ ops' = ops + 1
 TagDelete(t) ==
-  /\ Op /\ t # "" /\ \E e \in idx : e[1] = t
+  /\ Op /\ t # "" /\ t \in conf.tdels /\ \E e \in idx : e[1] = t
   /\ idx' = {e \in idx : e[1] # t}
   /\ modRefs' = RefMod(modRefs, conf.okey)
   /\ UNCHANGED <<conf, files, cst, act, got, tmpf, fin, rl, closes>>
@@ -335,7 +336,6 @@ PushManifest(p) ==
   /\ UNCHANGED <<conf, cst, act, got, tmpf, fin, rl, closes>>
 
 -----------------------------------------------------------------------------
-Nodes == Mans \cup UNION {Kids(n) : n \in Mans}
 \* steps that wait for nothing outside the process (run as soon as they are enabled)
 Internal(c) == \/ \E n \in Mans : CopySkip(c, n) \/ CopyPutManifest(c, n)
                \/ \E b \in Nodes : CopyBlobSkip(c, b) \/ CopyBlobCommit(c, b) \/ CopyFailDrain(c, b)
